@@ -14,6 +14,8 @@ import tempfile
 
 import lbry.wallet  # noqa: F401  (import order)
 from lbry.blob.blob_file import BlobFile, BlobBuffer
+from lbry.blob.blob_manager import BlobManager
+from lbry.conf import Config
 from lbry.error import InvalidBlobHashError, InvalidDataError
 
 import vlib
@@ -58,18 +60,31 @@ def key_of(k):
 class Impl:
     """one blob under test; do(op) -> (result, observation with raw bytes)"""
 
-    def __init__(self, kind, cb, blob_hash_hex):
+    def __init__(self, kind, cb, blob_hash_hex, file=None, expected=None):
+        """the blob object comes from the real BlobManager.get_blob(hash, expected) over a blob directory that may
+        already contain a file named after the hash (restart); the manager's completion callback (database
+        bookkeeping, C18) is replaced by a counter"""
         self.loop = asyncio.new_event_loop()
         asyncio.set_event_loop(self.loop)
         self.ex = HarnessExecutor()
         self.loop.set_default_executor(self.ex)
         self.kind = kind
-        self.dir = tempfile.mkdtemp(prefix='c01_') if kind == 'file' else None
+        self.root = tempfile.mkdtemp(prefix='c01_')
+        self.dir = os.path.join(self.root, 'blobfiles')
+        os.mkdir(self.dir)
         self.completed = 0
         self.hash_hex = blob_hash_hex
-        callback = self._completed if cb else None
-        cls = BlobFile if kind == 'file' else BlobBuffer
-        self.blob = cls(self.loop, blob_hash_hex, None, callback, self.dir)
+        if file is not None:
+            with open(os.path.join(self.dir, blob_hash_hex), 'wb') as f:
+                f.write(file)
+        conf = Config(data_dir=self.root, wallet_dir=self.root, download_dir=self.root,
+                      config=os.path.join(self.root, 'settings.yml'))
+        conf.save_blobs = kind == 'file'
+        self.mgr = BlobManager(self.loop, self.dir, None, conf)
+        self.mgr.blob_completed = self._completed if cb else None
+        self.blob = self.mgr.get_blob(blob_hash_hex, expected)
+        if not isinstance(self.blob, BlobFile if kind == 'file' else BlobBuffer):
+            raise RuntimeError('blob manager returned a %s for kind %s' % (type(self.blob).__name__, kind))
         self.writers = []
         self.keys = {}
 
@@ -130,6 +145,8 @@ class Impl:
             res = 'OSError'
         except asyncio.InvalidStateError:
             res = 'InvalidStateError'
+        except ValueError as e:
+            res = 'unexpected:ValueError:' + str(e)[:40]
         except Exception as e:  # noqa
             res = 'unexpected:' + type(e).__name__
         return res, self.observe()
@@ -150,17 +167,18 @@ class Impl:
 
     def observe(self):
         store = None
-        extra = []
+        names = sorted(os.listdir(self.dir))
+        extra = [n for n in names if n != self.hash_hex]
         if self.kind == 'file':
-            names = sorted(os.listdir(self.dir))
-            extra = [n for n in names if n != self.hash_hex]
             p = os.path.join(self.dir, self.hash_hex)
             if os.path.isfile(p):
                 with open(p, 'rb') as f:
                     store = f.read()
         else:
+            if self.hash_hex in names:
+                extra.append(self.hash_hex)          # an in-memory blob must not touch the directory
             vb = self.blob._verified_bytes
-            if vb is not None:
+            if vb is not None and not vb.closed:
                 store = vb.getvalue()
         idx = {id(w): i for i, w in enumerate(self.writers)}
         return {
@@ -192,8 +210,7 @@ class Impl:
             self.ex.shutdown(wait=False)
             asyncio.set_event_loop(None)
             self.loop.close()
-            if self.dir:
-                shutil.rmtree(self.dir, ignore_errors=True)
+            shutil.rmtree(self.root, ignore_errors=True)
 
 
 def canon_obs(o):
@@ -232,6 +249,34 @@ class Monitor:
         self.last_idle = -1                # last op index after which the ready queue was empty
         self.prev = None
         self.n = 0
+        self.initial = None
+
+    def start(self, file, expected, o):
+        """the object as BlobManager.get_blob(hash, expected) returned it over a directory that may hold a file"""
+        self.initial = file
+        if o['verified'] or o['store'] is not None:
+            if file is None:
+                self.fail('start: a blob without a file in the directory is verified / stored')
+            b = o['store']
+            if b is None or not o['verified']:
+                self.fail('start: verified without stored bytes, or stored bytes that are not verified')
+            else:
+                if expected and (o['length'] != expected or len(b) != expected):
+                    self.fail(f'start: get_blob(hash, {expected}) took over a {len(b)} byte file as verified '
+                              f'(blob.length={o["length"]})')
+                if expected and sha(b) != self.h:
+                    self.fail(f'start: get_blob(hash, {expected}) took over a file that does not hash to the name')
+                if o['length'] != len(b):
+                    self.fail(f'start: verified blob of length {o["length"]} holds {len(b)} bytes')
+                self.ever_won = True
+        elif file is not None and expected and len(file) == expected:
+            self.fail('start: an intact file of the announced length was not taken over')
+        if file is not None and not o['verified'] and o['store'] is not None:
+            self.fail('start: a rejected file was left in the blob directory')
+        if o['completed']:
+            self.fail('start: completion callback fired at construction')
+        self.length = o['length']
+        self.prev = o
 
     def fail(self, what, sig=None):
         if len(self.fails) < 10:
@@ -337,7 +382,7 @@ class Monitor:
             b = o['store']
             if sha(b) != self.h or len(b) != self.length or not 0 < len(b) <= MAX:
                 self.fail(f'op {i}: stored bytes (len {len(b)}) do not match the blob name / accepted length {self.length}')
-            if not any(isinstance(f, list) and f[1] == b for _, f in o['writers']):
+            if not any(isinstance(f, list) and f[1] == b for _, f in o['writers']) and b != self.initial:
                 self.fail(f'op {i}: stored bytes were not delivered by any writer')
         if o['verified']:
             if prev is None or not prev['verified']:
@@ -348,6 +393,8 @@ class Monitor:
             self.fail(f'op {i}: verified was reset by {name}')
         if not self.ever_won and (o['verified'] or o['store'] is not None or o['completed']):
             self.fail(f'op {i}: no writer delivered a correct copy, yet something was stored / verified / announced')
+        if prev is not None and o['completed'] > prev['completed'] and o['store'] is None:
+            self.fail(f'op {i}: the completion callback fired although no copy is stored')
         if o['completed'] > (self.saves if self.cb else 0):
             self.fail(f'op {i}: completion callback fired {o["completed"]} times for {self.saves} verification(s)')
         # ---- as soon as the loop is idle and the executor has nothing to do: a complete correct copy delivered on
@@ -386,6 +433,9 @@ class Monitor:
                 got = r.read()
         except OSError:
             got = None
+        except ValueError as e:
+            got = None
+            self.fail(f'reading the blob raised ValueError({e})')
         if o['verified']:
             if got is None or sha(got) != self.h or len(got) != self.length:
                 self.fail('a reader of the verified blob does not get the named bytes')
@@ -479,14 +529,33 @@ def gen_case(rng, run):
     for j in range(nw):
         kd = rng.choice(KINDS)
         plans.append({'key': keys[j], 'kind': kd, 'chunks': chunking(rng, make_data(rng, kd, data))})
-    sess = Session(kind, cb, data)
+    # the object may come back after a restart over an intact / truncated / over-long file, or be created with the
+    # length already known (stream descriptor)
+    file, expected = None, None
+    c = rng.random()
+    if L > 0 and c < 0.12:
+        kind = 'file'
+        variant = rng.choice(['intact', 'truncated', 'overlong'])
+        if variant == 'intact':
+            file = data
+            expected = L if rng.random() < 0.7 else rng.choice([None, 0])
+        elif variant == 'truncated':
+            file = data[:L - rng.choice([1, 1, max(1, L // 2), L])]
+            expected = L
+        else:
+            file = data + bytes(rng.randrange(256) for _ in range(rng.choice([1, 1, 3])))
+            expected = L
+        run.count('restart:' + variant)
+    elif c < 0.3:
+        expected = L
+    sess = Session(kind, cb, data, None, file, expected)
     try:
-        set_len = False
+        set_len = sess.length is not None
         if rng.random() < 0.2:
             sess.do(['len', rng.choice([-1, MAX + 1, 2 ** 32, -L, MAX + L])])
-        if rng.random() < 0.85:
+        if not set_len and rng.random() < 0.85:
             sess.do(['len', L])
-            set_len = True
+            set_len = sess.length is not None
         live = []                   # [wid, remaining chunks, key, plan kind]
         todo = list(plans)
         guard = 0
@@ -604,14 +673,17 @@ def gen_redownload(rng, run):
 
 
 class Session:
-    def __init__(self, kind, cb, data, blob_hash=None):
+    def __init__(self, kind, cb, data, blob_hash=None, file=None, expected=None):
         self.kind, self.cb, self.data = kind, cb, data
+        self.file, self.expected = file, expected
         self.hash = blob_hash if blob_hash is not None else sha(data)
-        self.impl = Impl(kind, cb, self.hash.hex())
+        self.impl = Impl(kind, cb, self.hash.hex(), file, expected)
         self.mon = Monitor(self.hash, cb, kind)
         self.ops = []
+        self.start_obs = self.impl.observe()
+        self.mon.start(file, expected, self.start_obs)
         self.trace = []
-        self.length = None
+        self.length = self.start_obs['length']
 
     def do(self, op):
         res, o = self.impl.do(op)
@@ -623,9 +695,10 @@ class Session:
 
     def result(self):
         self.mon.finish(self.ops)
-        self.mon.readable(self.impl.blob, self.trace[-1][1] if self.trace else None)
-        case = {'kind': self.kind, 'cb': self.cb, 'data': self.data.hex(), 'hash': self.hash.hex(), 'ops': self.ops}
-        return case, self.trace, self.mon
+        self.mon.readable(self.impl.blob, self.trace[-1][1] if self.trace else self.start_obs)
+        case = {'kind': self.kind, 'cb': self.cb, 'data': self.data.hex(), 'hash': self.hash.hex(),
+                'file': None if self.file is None else self.file.hex(), 'expected': self.expected, 'ops': self.ops}
+        return case, [('start', self.start_obs)] + self.trace, self.mon
 
     def close(self):
         self.impl.close()
@@ -633,7 +706,9 @@ class Session:
 
 def run_fixed(case):
     """execute a stored / enumerated case (concrete op list) on the implementation"""
-    sess = Session(case['kind'], case['cb'], bytes.fromhex(case['data']), bytes.fromhex(case['hash']))
+    f = case.get('file')
+    sess = Session(case['kind'], case['cb'], bytes.fromhex(case['data']), bytes.fromhex(case['hash']),
+                   None if f is None else bytes.fromhex(f), case.get('expected'))
     try:
         for op in case['ops']:
             sess.do(op)
@@ -687,19 +762,21 @@ def enumerate_small(kind, tail_variants):
 # ----------------------------------------------------------------------------------------------
 
 def model_trace(model, case):
-    out = model.call('run', kind=case['kind'], cb=case['cb'], hash=case['hash'], ops=case['ops'])
+    out = model.call('run', kind=case['kind'], cb=case['cb'], hash=case['hash'], ops=case['ops'],
+                     file=case.get('file'), expected=case.get('expected'))
     return [[r, o] for r, o in out]
 
 
 def judge(run, model, case, trace, mon, label):
-    wrote = any(op[0] == 'write' and res == 'ok' for op, (res, _) in zip(case['ops'], trace))
+    steps = trace[1:]
+    wrote = any(op[0] == 'write' and res == 'ok' for op, (res, _) in zip(case['ops'], steps)) or case.get('file') is not None
     run.case(case, nontrivial=wrote)
     run.count('cases:' + label)
     run.count('ops', len(case['ops']))
     last = trace[-1][1] if trace else None
     if last is not None:
         run.count('end:' + ('verified' if last['verified'] else 'not-verified') + ':' + case['kind'])
-    for op, (res, _) in zip(case['ops'], trace):
+    for op, (res, _) in zip(case['ops'], steps):
         if res in ('OSError', 'InvalidStateError'):
             run.count(f'raises:{op[0]}:{res}')
     if mon.fails:
@@ -713,7 +790,8 @@ def judge(run, model, case, trace, mon, label):
         return
     for i, (a, b) in enumerate(zip(impl, mod)):
         if vlib.canon(a) != vlib.canon(b):
-            run.compare('C01.run', case, {'step': i, 'op': case['ops'][i], 'after': a}, {'step': i, 'op': case['ops'][i], 'after': b})
+            lab = (['start'] + case['ops'])[i]
+            run.compare('C01.run', case, {'step': i - 1, 'op': lab, 'after': a}, {'step': i - 1, 'op': lab, 'after': b})
             return
     run.compare('C01.run', case, True, True)
 
@@ -780,14 +858,16 @@ def main(run):
                 'first, middle or last byte / truncated / over-long by 1..7 / unrelated / empty data in a random chunking '
                 '(whole, 1-byte, boundary cuts, empty chunks), chunk writes interleaved at random with loop iterations '
                 '(tick), full drains, executor completions (io), close_handle, blob.close, reads, delete(), re-opens of the same peer and '
-                'set_length with valid and invalid values, always ending in drain; io; drain; every 8th case downloads the same object '
+                'set_length with valid and invalid values, always ending in drain; io; drain; every object comes from the real '
+                'BlobManager.get_blob(hash, expected), 12% of them over a directory already holding an intact / truncated / '
+                'over-long file (restart), 18% with the length known at creation; every 8th case downloads the same object '
                 '2-3 times with a reset (BlobBuffer reader consuming it / delete()) in between. Then every interleaving of '
                 '2 writers x 1-3 chunks x 5 data kinds on a 3-byte blob. distinct = distinct (kind, data, op list); '
                 'non-trivial = at least one chunk was accepted by a writer. Monitor-only: 2 MiB and 2 MiB+1 blobs.')
     for nm, case in load_corpus():
         c, trace, mon = run_fixed(case)
         judge(run, model, c, trace, mon, 'corpus')
-    n_rand = vlib.scaled(run.tier, 9000, 200000)
+    n_rand = vlib.scaled(run.tier, 7000, 200000)
     for n in range(n_rand):
         if n % 8 == 7:
             case, trace, mon = gen_redownload(rng, run)
